@@ -6,6 +6,7 @@
 #include <string.h>
 #include <setjmp.h>
 #include <signal.h>
+#include <algorithm>
 
 extern "C" {
 typedef size_t (*reduce_reader_t) (void *start, size_t len, void *aux_data);
@@ -111,6 +112,66 @@ static void structural_positions (const std::vector<uint8_t> &enc, std::vector<c
   }
 }
 
+// ---- element-level view of a valid encoding (for structure-aware faults)
+struct El {
+  size_t start, end;       // byte span in the encoding
+  uint32_t sym_len, ref_raw, ref_ind;
+  size_t sym_off;          // offset of literal bytes
+  size_t out_before;       // decoded position (within the current buffer) before this element
+  bool last_in_buffer;     // decoded position reaches the buffer length after this element
+};
+static uint32_t rd_uint (const std::vector<uint8_t> &enc, size_t &p) {
+  uint32_t u = enc[p++];
+  int n = 1;
+  while (n <= 4 && (u >> (8 - n)) != 1) n++;
+  uint32_t v = u & (0xff >> n);
+  for (int i = 1; i < n && p < enc.size (); i++) v = v * 256 + enc[p++];
+  return v;
+}
+static void wr_uint (std::vector<uint8_t> &out, uint32_t u) {
+  int n;
+  for (n = 1; n <= 4 && u >= (1u << 7 * n); n++) {}
+  out.push_back ((uint8_t) ((1 << (8 - n)) | ((u >> (n - 1) * 8) & 0xff)));
+  for (int i = 2; i <= n; i++) out.push_back ((uint8_t) ((u >> (n - i) * 8) & 0xff));
+}
+static void parse_elements (const std::vector<uint8_t> &enc, std::vector<El> &els) {
+  size_t p = 3, out = 0;
+  while (p < enc.size ()) {
+    El e = {};
+    e.start = p;
+    uint8_t tag = enc[p++];
+    if (tag == 0) break;
+    e.out_before = out;
+    e.sym_len = tag >> 5;
+    e.ref_raw = tag & 31;
+    if (e.sym_len != 0) {
+      if (e.sym_len == 7) e.sym_len = rd_uint (enc, p);
+      e.sym_off = p;
+      p += e.sym_len;
+      out += e.sym_len;
+    }
+    if (e.ref_raw != 0) {
+      if (e.ref_raw == 31) e.ref_raw = rd_uint (enc, p);
+      e.ref_ind = rd_uint (enc, p);
+      out += e.ref_raw + 3;
+    }
+    e.end = p;
+    e.last_in_buffer = out >= (1u << 18);
+    if (e.last_in_buffer) out = 0;
+    els.push_back (e);
+  }
+}
+static void emit_element (std::vector<uint8_t> &out, const std::vector<uint8_t> &enc, const El &e, uint32_t sym_len,
+                          uint32_t ref_raw, uint32_t ref_ind) {
+  out.push_back ((uint8_t) (((sym_len < 7 ? sym_len : 7) << 5) | (ref_raw < 31 ? ref_raw : 31)));
+  if (sym_len >= 7) wr_uint (out, sym_len);
+  for (uint32_t i = 0; i < sym_len; i++) out.push_back (i < e.sym_len ? enc[e.sym_off + i] : (uint8_t) 'x');
+  if (ref_raw != 0) {
+    if (ref_raw >= 31) wr_uint (out, ref_raw);
+    wr_uint (out, ref_ind);
+  }
+}
+
 // ---- input generator: structured strings that exercise the match finder ----
 static void gen_input (CS &cs, std::vector<uint8_t> &x, std::string &kind) {
   int k = cs.weighted ({3, 3, 3, 3, 2, 2, 1});
@@ -208,8 +269,8 @@ static std::string show_bytes (const std::vector<uint8_t> &v, size_t max = 48) {
   return s;
 }
 
-enum FaultKind { F_TRUNC, F_EXTEND, F_SUBST, F_INSERT, F_DELETE };
-static const char *fault_names[] = {"truncate", "extend", "substitute", "insert", "delete"};
+enum FaultKind { F_TRUNC, F_EXTEND, F_SUBST, F_INSERT, F_DELETE, F_ELEM };
+static const char *fault_names[] = {"truncate", "extend", "substitute", "insert", "delete", "element"};
 
 // check one damaged stream against original x. returns false and fills o on violation.
 static bool check_damaged (const std::vector<uint8_t> &x, const std::vector<uint8_t> &enc,
@@ -337,9 +398,11 @@ static void case_fn (CS &cs, Outcome &o) {
   // fault injection on the encoding
   std::vector<char> st;
   structural_positions (enc, st);
+  std::vector<El> els;
+  parse_elements (enc, els);
   int nf = mode == 2 ? 1 : (int) cs.range (0, x.size () > 100000 ? 2 : 12);
   for (int f = 0; f < nf; f++) {
-    int fk = mode == 2 ? (int) cs.range (0, 4) : cs.weighted ({2, 1, 6, 1, 1});
+    int fk = mode == 2 ? (int) cs.range (0, 4) : cs.weighted ({2, 1, 5, 1, 1, els.empty () ? 0 : 5});
     std::vector<uint8_t> dam = enc;
     std::string what = fault_names[fk];
     size_t pos = 0;
@@ -372,6 +435,31 @@ static void case_fn (CS &cs, Outcome &o) {
       pos = cs.range (0, enc.size () - 1);
       dam.erase (dam.begin () + pos);
       break;
+    case F_ELEM: {
+      // structure-aware: re-encode one element with a slightly different length / index. Elements at
+      // the start, at the end and at buffer boundaries are preferred.
+      std::vector<size_t> edge;
+      for (size_t i = 0; i < els.size (); i++)
+        if (els[i].last_in_buffer || (i + 1 < els.size () && els[i + 1].last_in_buffer) || i + 1 == els.size ()
+            || i == 0)
+          edge.push_back (i);
+      size_t ei = (!edge.empty () && cs.chance (160)) ? edge[cs.range (0, edge.size () - 1)]
+                                                       : cs.range (0, els.size () - 1);
+      const El &e = els[ei];
+      uint32_t sl = e.sym_len, rr = e.ref_raw, ri = e.ref_ind;
+      static const int deltas[] = {1, -1, 2, 3, -2, -3, 4, 28, 100, -4};
+      int d = deltas[cs.range (0, 9)];
+      int field = e.ref_raw ? cs.weighted ({5, 3, 1}) : 2;
+      if (field == 0) rr = (uint32_t) std::max<int64_t> (1, (int64_t) rr + d), what += ":ref_len";
+      else if (field == 1) ri = (uint32_t) std::max<int64_t> (0, (int64_t) ri + d), what += ":ref_ind";
+      else sl = (uint32_t) std::max<int64_t> (0, (int64_t) sl + d), what += ":sym_len";
+      if (e.last_in_buffer) what += "@buffer_end";
+      dam.assign (enc.begin (), enc.begin () + e.start);
+      emit_element (dam, enc, e, sl, rr, ri);
+      dam.insert (dam.end (), enc.begin () + e.end, enc.end ());
+      pos = e.start;
+      break;
+    }
     }
     if (dam == enc) continue;
     bool rej, asserted;
